@@ -111,7 +111,12 @@ Qed.
 
 Lemma addr_of_ff ss k : fuel_free (addr_of ss k). Proof. unfold addr_of. ff_tac. Qed.
 #[export] Hint Resolve addr_of_ff : ff.
-Lemma term_value_ff ss v : fuel_free (term_value ss v). Proof. unfold term_value. ff_tac. Qed.
+Lemma offset_arith_ff op a b : fuel_free (offset_arith op a b). Proof. unfold offset_arith. ff_tac. Qed.
+#[export] Hint Resolve offset_arith_ff : ff.
+Lemma term_value_ff ss : forall v, fuel_free (term_value ss v).
+Proof.
+  fix IH 1. intros v. destruct v; cbn [term_value]; ff_tac.
+Qed.
 #[export] Hint Resolve term_value_ff : ff.
 Lemma calc_offset_z_ff ss l op r : fuel_free (calc_offset_z ss l op r). Proof. unfold calc_offset_z. ff_tac. Qed.
 #[export] Hint Resolve calc_offset_z_ff : ff.
